@@ -119,22 +119,22 @@ func LoadConfig() Config {
 
 // ReplayFile is what a violation is reported as, and what --replay consumes.
 type ReplayFile struct {
-	Property  string   `json:"property"`
-	Oracle    string   `json:"oracle"`
-	Msg       string   `json:"msg"`
-	Engine    string   `json:"engine"`
-	Tier      string   `json:"tier"`
-	Master    uint64   `json:"master_seed"`
-	RunIndex  int      `json:"run_index"`
-	Seed      uint64   `json:"seed"`
-	Tape      []int    `json:"tape"`
-	Labels    []string `json:"tape_labels,omitempty"`
-	Trace     []string `json:"trace,omitempty"`
-	Minimised bool     `json:"minimised"`
-	OrigLen   int      `json:"original_tape_len,omitempty"`
+	Property  string            `json:"property"`
+	Oracle    string            `json:"oracle"`
+	Msg       string            `json:"msg"`
+	Engine    string            `json:"engine"`
+	Tier      string            `json:"tier"`
+	Master    uint64            `json:"master_seed"`
+	RunIndex  int               `json:"run_index"`
+	Seed      uint64            `json:"seed"`
+	Tape      []int             `json:"tape"`
+	Labels    []string          `json:"tape_labels,omitempty"`
+	Trace     []string          `json:"trace,omitempty"`
+	Minimised bool              `json:"minimised"`
+	OrigLen   int               `json:"original_tape_len,omitempty"`
 	Extra     map[string]string `json:"extra,omitempty"`
-	SutCommit string   `json:"sut_commit,omitempty"`
-	GoVersion string   `json:"go_version,omitempty"`
+	SutCommit string            `json:"sut_commit,omitempty"`
+	GoVersion string            `json:"go_version,omitempty"`
 }
 
 type Failure struct {
@@ -287,6 +287,9 @@ func Main(cfg Config, run RunFunc) {
 		if res.Nontrivial {
 			sum.Nontrivial++
 			seen[res.SchedHash] = struct{}{}
+		}
+		if td := os.Getenv("VSIM_TRACEDIR"); td != "" {
+			os.WriteFile(fmt.Sprintf("%s/trace-%d.txt", td, idx), []byte(strings.Join(res.Trace, "\n")+"\n"), 0644)
 		}
 		if wantLog && idx < detN {
 			sum.Log = append(sum.Log, fmt.Sprintf("%d %016x %016x %s", idx, res.SchedHash, HashStrings(res.Trace), res.Oracle))
